@@ -96,6 +96,17 @@ def limit_cases():
                     st = [others[0], others[1], b"\x03"][:n_ops]
                     st[pos] = v
                     yield ("num%d-%s-pos%d" % (ln, opn.lower(), pos), bytes([OP[opn]]) + (O1 if opn.endswith("VERIFY") else b""), st, b"", [])
+        # the same over-long string in every operand position at once (byte-identical operands are still numbers that must be decoded)
+        for opn, n_ops in (("WITHIN", 3), ("ADD", 2), ("SUB", 2), ("BOOLAND", 2), ("BOOLOR", 2), ("NUMEQUAL", 2), ("NUMEQUALVERIFY", 2), ("NUMNOTEQUAL", 2), ("LESSTHAN", 2),
+                           ("GREATERTHAN", 2), ("LESSTHANOREQUAL", 2), ("GREATERTHANOREQUAL", 2), ("MIN", 2), ("MAX", 2)):
+            for w in (v, b"\x00" * (ln - 1) + b"\x01", b"\xff" * (ln - 1) + b"\x7f"):
+                yield ("num%d-%s-same" % (ln, opn.lower()), bytes([OP[opn]]) + (O1 if opn.endswith("VERIFY") else b""), [w] * n_ops, b"", [])
+                yield ("num%d-%s-dup" % (ln, opn.lower()), push(w) + bytes([OP["DUP"]]) * (n_ops - 1) + bytes([OP[opn]]) + (O1 if opn.endswith("VERIFY") else b""), [], b"", [])
+        for opn in ("1SUB", "NEGATE", "ABS", "NOT", "0NOTEQUAL"):
+            yield ("num%d-%s" % (ln, opn.lower()), bytes([OP[opn]]), [v], b"", [])
+        # the counter of OP_CHECKSIGADD is an ordinary four-byte number (empty signature: nothing is verified, the counter is passed on)
+        for w in (v, b"\xff" * (ln - 1) + b"\x00"):
+            yield ("num%d-checksigadd" % ln, bytes([0xba]), [b"", w, b"\x02" * 32], b"", [])
     # --- per-phase reset of the operation count (scriptSig -> scriptPubKey -> redeem script)
     for n in (200, 201, 202):
         yield ("phase-spk%d" % n, O1 + NOP * 150, [], NOP * n + O1, [])
